@@ -1,7 +1,7 @@
 #!/usr/bin/env python3
 """Re-run every stored seeded change (seeded/<name>/patch.diff) on a scratch copy of /repo/src against the check that is recorded to detect it; expected exit 1.
-usage: tools/seed_regression.py [workers]"""
-import json, os, subprocess, glob, sys, shutil, tempfile
+usage: tools/seed_regression.py [workers [regex on the seed name]]"""
+import json, os, re, subprocess, glob, sys, shutil, tempfile
 from concurrent.futures import ThreadPoolExecutor
 os.chdir('/verif')
 done = {}
@@ -24,7 +24,7 @@ def one(d):
         return (name,pid,c.returncode,last[-1][:110] if last else c.stdout[-200:])
     finally:
         shutil.rmtree(tmp,ignore_errors=True)
-dirs=sorted(glob.glob('/verif/seeded/*/'))
+dirs=[d for d in sorted(glob.glob('/verif/seeded/*/')) if (len(sys.argv)<3 or re.search(sys.argv[2], d))]
 with ThreadPoolExecutor(max_workers=int(sys.argv[1]) if len(sys.argv)>1 else 3) as ex:
     res=[]
     for r in ex.map(one, dirs):
